@@ -70,7 +70,17 @@ type Config struct {
 	Checks  map[string]CheckCfg  `json:"checks"`
 }
 
+// scratchDir is this invocation's private output directory (removed on exit)
+var scratchDir string
+
+func cleanupScratch() {
+	if scratchDir != "" {
+		os.RemoveAll(scratchDir)
+	}
+}
+
 func die2(format string, a ...interface{}) {
+	cleanupScratch()
 	fmt.Fprintf(os.Stderr, "vdriver: "+format+"\n", a...)
 	os.Exit(2)
 }
@@ -440,9 +450,17 @@ func main() {
 	for k, v := range cc.Env {
 		baseEnv = append(baseEnv, k+"="+v)
 	}
-	tmpDir := filepath.Join(verifDir, "build", "out", id)
+	// private per invocation: the same check may be running elsewhere (another tier, another tree)
+	tmpDir := filepath.Join(verifDir, "build", "out", fmt.Sprintf("%s-%d", id, os.Getpid()))
 	os.RemoveAll(tmpDir)
 	os.MkdirAll(tmpDir, 0o755)
+	scratchDir = tmpDir
+	defer cleanupScratch()
+	if kp := os.Getenv("VERIF_KNOWN_FILE"); kp != "" {
+		// maintenance only (tools/regen_known.sh): a different known-findings list
+		knownPath = kp
+		baseEnv[2] = "VERIF_KNOWN=" + knownPath
+	}
 
 	if *replay != "" {
 		rp, _ := filepath.Abs(*replay)
@@ -457,9 +475,11 @@ func main() {
 				fmt.Println("  " + l)
 			}
 			fmt.Printf("VIOLATION property=%s replay=%s\n", id, rp)
+			cleanupScratch()
 			os.Exit(1)
 		}
 		fmt.Println("replay: no violation")
+		cleanupScratch()
 		os.Exit(0)
 	}
 
